@@ -145,6 +145,9 @@ type SexpArraySelector struct {
 }
 
 func (si *SexpArraySelector) SexpString(ps *PrintState) string {
+	if si.Container == nil || si.Select == nil {
+		return "(arraySelector)"
+	}
 	//Q("in SexpArraySelector.SexpString(), si.Container.Env = %p", si.Container.Env)
 	rhs, err := si.RHS(si.Container.Env)
 	if err != nil {
@@ -183,6 +186,9 @@ func selectorIntBound(sx Sexp, name string) (int64, error) {
 }
 
 func (x *SexpArraySelector) sliceBounds() (start, end int64, isSlice bool, err error) {
+	if x.Container == nil || x.Select == nil {
+		return 0, 0, false, errEmptySelector
+	}
 	selectors := x.Select.Val
 	colonPos := -1
 	for i, sx := range selectors {
@@ -230,6 +236,9 @@ func (x *SexpArraySelector) sliceBounds() (start, end int64, isSlice bool, err e
 // RHS applies the selector to the contain and returns
 // the value obtained.
 func (x *SexpArraySelector) RHS(env *Zlisp) (Sexp, error) {
+	if x.Container == nil || x.Select == nil {
+		return SexpNull, errEmptySelector
+	}
 	start, end, isSlice, err := x.sliceBounds()
 	if err != nil {
 		return SexpNull, err
@@ -293,6 +302,9 @@ type Selector interface {
 }
 
 func (x *SexpArraySelector) AssignToSelection(env *Zlisp, rhs Sexp) error {
+	if x.Container == nil || x.Select == nil {
+		return errEmptySelector
+	}
 	_, _, isSlice, err := x.sliceBounds()
 	if err != nil {
 		return err
